@@ -265,6 +265,17 @@ func writesThroughRoot(p *Prog, fn *ssa.Function, root ssa.Value, depth int, cha
 					continue
 				}
 				name := FuncName(sc)
+				// library functions that fill a byte slice they are handed (encoding/binary's Put*, hex/base64 Encode, io.ReadFull, rand.Read)
+				if strings.Contains(name, "encoding/binary") && strings.Contains(name, "Put") || strings.HasSuffix(name, "encoding/hex.Encode") || strings.HasSuffix(name, "Encoding).Encode") ||
+					name == "io.ReadFull" || name == "crypto/rand.Read" || name == "math/rand.Read" {
+					for _, a := range cc.Args {
+						if D[a] {
+							add(in, name+" (writes into the slice it is handed)")
+							break
+						}
+					}
+					continue
+				}
 				if isInPlaceMutator(name) {
 					if len(cc.Args) > 0 && D[cc.Args[0]] {
 						add(in, name+" (sorts/reorders its argument in place)")
